@@ -86,8 +86,46 @@ fn kahn_case(n: usize, edges: u32, repeat: usize) -> Result<String, String> {
     }
 }
 
+/// C20-r7: nodes are (name, path, type) triples — two nodes may share a name
+fn kahn_same_names() -> Vec<(String, Result<String, String>)> {
+    let mk = |name: &str, path: &str, t: DependencyNodeType| DependencyNode { name: name.to_string(), path: path.to_string(), node_type: t };
+    let mut out = Vec::new();
+    // Config@v2 -> Config@v1 (acyclic), plus a user of v2
+    let cases: Vec<(&str, Vec<DependencyNode>, Vec<(usize, usize)>)> = vec![
+        ("Config@v2 -> Config@v1, load -> Config@v2", vec![mk("Config", "src/v1.rs", DependencyNodeType::Struct), mk("Config", "src/v2.rs", DependencyNodeType::Struct), mk("load", "src/cmd.rs", DependencyNodeType::Command)], vec![(1, 0), (2, 1)]),
+        ("Status struct and Status enum, each with a dependent", vec![mk("Status", "a.rs", DependencyNodeType::Struct), mk("Status", "a.rs", DependencyNodeType::Enum), mk("UsesStruct", "b.rs", DependencyNodeType::Struct), mk("UsesEnum", "b.rs", DependencyNodeType::Struct)], vec![(2, 0), (3, 1)]),
+        ("same name in three files, chain", vec![mk("Item", "a.rs", DependencyNodeType::Struct), mk("Item", "b.rs", DependencyNodeType::Struct), mk("Item", "c.rs", DependencyNodeType::Struct)], vec![(0, 1), (1, 2)]),
+        ("same name, genuine 2-cycle", vec![mk("Item", "a.rs", DependencyNodeType::Struct), mk("Item", "b.rs", DependencyNodeType::Struct)], vec![(0, 1), (1, 0)]),
+    ];
+    for (label, nodes, edges) in cases {
+        let mut r = DependencyResolver::new();
+        for n in &nodes { r.add_node(n.clone()); }
+        for (u, v) in &edges { r.add_dependency(Dependency { from: nodes[*u].clone(), to: nodes[*v].clone(), dependency_type: DependencyType::Field }); }
+        let cyclic = label.contains("cycle");
+        let res = std::panic::catch_unwind(std::panic::AssertUnwindSafe(|| r.resolve_build_order()));
+        let verdict = match res {
+            Err(_) => Err("panic inside resolve_build_order".to_string()),
+            Ok(Ok(order)) => {
+                if cyclic { Err("graph is cyclic but an order was returned".to_string()) }
+                else if order.len() != nodes.len() { Err(format!("{} nodes, order has {}", nodes.len(), order.len())) }
+                else {
+                    let pos = |n: &DependencyNode| order.iter().position(|x| x == n);
+                    let mut bad = None;
+                    for n in &nodes { if pos(n).is_none() { bad = Some(format!("{}@{} missing from the order", n.name, n.path)); } }
+                    for (u, v) in &edges { if pos(&nodes[*v]) > pos(&nodes[*u]) { bad = Some(format!("{}@{} depends on {}@{} but is ordered before it", nodes[*u].name, nodes[*u].path, nodes[*v].name, nodes[*v].path)); } }
+                    match bad { Some(b) => Err(b), None => Ok(format!("{:?}", order.iter().map(|x| format!("{}@{}", x.name, x.path)).collect::<Vec<_>>())) }
+                }
+            }
+            Ok(Err(e)) => if cyclic { Ok("circular".to_string()) } else { Err(format!("graph is acyclic but the resolver reported {}", e)) },
+        };
+        out.push((label.to_string(), verdict));
+    }
+    out
+}
+
 fn main() {
     let mut rep = Report::new();
+    for (label, verdict) in kahn_same_names() { rep.case("resolve_build_order", &format!("nodes sharing a name: {}", label), &|| verdict.clone()); }
     for n in 1..=4usize {
         for edges in 0..(1u32 << (n * n)) {
             if n == 4 && Report::depth() < 5 && edges % 7 != 0 { continue; }
@@ -180,6 +218,13 @@ fn big_graphs() -> Vec<(String, Vec<String>, Vec<(String, String)>)> {
         for m in &mids { es.push((root.clone(), m.clone())); es.push((m.clone(), "Leaf".to_string())); }
         let mut names = vec![root.clone()]; names.extend(mids.clone()); names.push("Leaf".to_string());
         v.push((format!("fan-{}", n), names, es));
+        // braid: layers of two nodes, each depending on both nodes of the next layer (2^n paths, 2n nodes)
+        let a: Vec<String> = (0..n).map(|i| format!("A{:03}", i)).collect();
+        let b: Vec<String> = (0..n).map(|i| format!("B{:03}", i)).collect();
+        let mut es = Vec::new();
+        for i in 0..n - 1 { for x in [&a[i], &b[i]] { for y in [&a[i + 1], &b[i + 1]] { es.push((x.clone(), y.clone())); } } }
+        let mut names = a.clone(); names.extend(b.clone());
+        v.push((format!("braid-{}", n), names, es));
         // one long cycle
         let c: Vec<String> = (0..n).map(|i| format!("C{:03}", i)).collect();
         v.push((format!("cycle-{}", n), c.clone(), (0..n).map(|i| (c[i].clone(), c[(i + 1) % n].clone())).collect()));
